@@ -596,3 +596,52 @@ Theorem visit_item_reads :
   filter (fun c => String.eqb (fst c) "nItemLoc.read") (calls_a 400 (body "Store.visitNodes")) =
   [("nItemLoc.read", [GVar "t"; GVar "false"]); ("nItemLoc.read", [GVar "t"; GVar "withValue"])].
 Proof. vm_compute. reflexivity. Qed.
+
+(* ------------------------------------------------------------------------------------------- *)
+(* 25. the version protocol (Proto.v) in the source, statement by statement.
+   rootCAS = Proto's mcas: under rootLock; fails unless the handle still shows prev; publishes next; marks prev superseded;
+   chains next behind prev (one extra reference, owned by prev) iff prev has more than two references.
+   rootDecRef = decref under rootLock and freeNodeLock (in that order).
+   closeCollection = Proto's close: detaches the handle's version under rootLock, then drops the handle's reference. *)
+Theorem protocol_functions :
+  body "Collection.rootCAS" =
+    [SExpr (GCall "t.rootLock.Lock" []);
+     SDefer (GCall "t.rootLock.Unlock" []);
+     SIf [] (GBin "!=" (GVar "t.root") (GVar "prev")) [SReturn [GVar "false"]] [];
+     SAssign [GVar "t.root"] "=" [GVar "next"];
+     SIf [] (GBin "!=" (GVar "prev") GNil) [SAssign [GVar "prev.superseded"] "=" [GVar "true"]] [];
+     SIf [] (GBin "&&" (GBin "!=" (GVar "prev") GNil) (GBin ">" (GVar "prev.refs") (GInt 2)))
+       [SIf [] (GBin "||" (GBin "!=" (GVar "prev.chainedCollection") GNil) (GBin "!=" (GVar "prev.chainedRootNodeLoc") GNil))
+          [SExpr (GCall "panic" [GCall "fmt.Sprintf" [GLit """chain already taken, coll: %v"""; GCall "t.Name" []]])] [];
+        SAssign [GVar "prev.chainedCollection"] "=" [GVar "t"];
+        SAssign [GVar "prev.chainedRootNodeLoc"] "=" [GVar "t.root"];
+        SIncDec (GVar "t.root.refs") true] [];
+     SReturn [GVar "true"]] /\
+  body "Collection.rootDecRef" =
+    [SExpr (GCall "t.rootLock.Lock" []);
+     SExpr (GCall "freeNodeLock.Lock" []);
+     SExpr (GCall "t.rootDecRefUnlocked" [GVar "r"]);
+     SExpr (GCall "freeNodeLock.Unlock" []);
+     SExpr (GCall "t.rootLock.Unlock" [])] /\
+  body "Collection.closeCollection" =
+    [SIf [] (GBin "==" (GVar "t") GNil) [SReturn []] [];
+     SExpr (GCall "t.rootLock.Lock" []);
+     SAssign [GVar "r"] ":=" [GVar "t.root"];
+     SAssign [GVar "t.root"] "=" [GNil];
+     SExpr (GCall "t.rootLock.Unlock" []);
+     SIf [] (GBin "!=" (GVar "r") GNil) [SExpr (GCall "t.rootDecRef" [GVar "r"])] []].
+Proof. repeat split; vm_compute; reflexivity. Qed.
+
+(* Snapshot = Proto's snapshot: a read-only store with the SAME callbacks, file and lock objects, holding for every
+   collection (in name order) one more reference on its current version *)
+Theorem snapshot_function :
+  body "Store.Snapshot" =
+    [SAssign [GVar "coll"] ":=" [GCall "copyColl" [GUn "*" (GCall "s.getColl" [])]];
+     SAssign [GVar "res"] ":="
+       [GUn "&" (GOther "Store{  coll:  &coll,  file:  s.file,  size:  atomic.LoadInt64(&s.size),  readOnly: true,  callbacks: s.callbacks, }")];
+     SRange (GVar "_") (GVar "name") (GCall "collNames" [GVar "coll"])
+       [SAssign [GVar "collOrig"] ":=" [GCall "[]" [GVar "coll"; GVar "name"]];
+        SAssign [GCall "[]" [GVar "coll"; GVar "name"]] "="
+          [GUn "&" (GOther "Collection{  store:  res,  compare: collOrig.compare,  rootLock: collOrig.rootLock,  root:  collOrig.rootAddRef(), }")]];
+     SReturn [GVar "res"]].
+Proof. vm_compute. reflexivity. Qed.
